@@ -136,7 +136,9 @@ func c12Extra(scn *world.Scenario, path []world.Op, counts map[string]int) (int,
 					action = si.NodeInfo_CREATE_DRAIN
 				}
 				nn := n
-				send("node "+n, func() { w2.SendRawNode(&si.NodeRequest{RmID: world.RMID, Nodes: []*si.NodeInfo{w2.RawNode(nn, action, m.NodeCap[nn])}}) })
+				send("node "+n, func() {
+					w2.SendRawNode(&si.NodeRequest{RmID: world.RMID, Nodes: []*si.NodeInfo{w2.RawNode(nn, action, m.NodeCap[nn])}})
+				})
 			}
 			for _, fk := range sortedKeys(m.Foreign) {
 				fs := scn.ForeignSpec(fk)
@@ -144,7 +146,9 @@ func c12Extra(scn *world.Scenario, path []world.Op, counts map[string]int) (int,
 				if m.ForeignV[fk] == 2 {
 					res = fs.Res2
 				}
-				send("foreign "+fk, func() { w2.SendRawAlloc(&si.AllocationRequest{RmID: world.RMID, Allocations: []*si.Allocation{w2.RawForeign(fs, res)}}) })
+				send("foreign "+fk, func() {
+					w2.SendRawAlloc(&si.AllocationRequest{RmID: world.RMID, Allocations: []*si.Allocation{w2.RawForeign(fs, res)}})
+				})
 			}
 			for _, i := range ap {
 				spec := scn.App(apps[i])
@@ -164,7 +168,9 @@ func c12Extra(scn *world.Scenario, path []world.Op, counts map[string]int) (int,
 				if ks.State == "bound" {
 					node = ks.Node
 				}
-				send("allocation "+k, func() { w2.SendRawAlloc(&si.AllocationRequest{RmID: world.RMID, Allocations: []*si.Allocation{w2.RawAsk(spec, res, node)}}) })
+				send("allocation "+k, func() {
+					w2.SendRawAlloc(&si.AllocationRequest{RmID: world.RMID, Allocations: []*si.Allocation{w2.RawAsk(spec, res, node)}})
+				})
 			}
 			if crash != "" {
 				viol = append(viol, v("C12", "recovery-crashes", "crash", "replaying the shim's state into a new core crashed at %s (order %s)", crash, label))
